@@ -290,6 +290,9 @@ func (c *Collection) PullID(ctx context.Context, id string, opts ...ReadOption) 
 	send := make(chan *ValueChange)
 	go func() {
 		defer close(send)
+		// make sure the underlying Pull ends when we do, otherwise it blocks writers once nobody is receiving from it
+		ctx, cancel := context.WithCancel(ctx)
+		defer cancel()
 		for change := range c.Pull(ctx, opts...) {
 			if change.Id != id {
 				continue
